@@ -49,6 +49,7 @@ ASSUMPTIONS = ['ConfigObj parsing is not modelled: the model receives the tree o
 # source tie (harness/translate.py, dialect 'dyn'): the value typing and the factory functions, regenerated on every run into
 # lean/TaurexModel/Gen/SrcC15.lean and proved equal to the functions of TaurexModel/Factory.lean in lean/Props/C15Src.lean
 _F = 'taurex/parameter/factory.py'
+_P = 'taurex/parameter/parameterparser.py'
 _SECTION_FACTORIES = ['gas_factory', 'temp_factory', 'chemistry_factory', 'pressure_factory', 'star_factory',
                       'model_factory', 'planet_factory', 'optimizer_factory', 'observation_factory', 'instrument_factory']
 SRC_SPECS = [
@@ -69,6 +70,26 @@ SRC_SPECS = [
     dict(module=_F, func='generate_contributions', lean='generate_contributions', dialect='dyn'),
     dict(module=_F, func='create_model', lean='create_model', dialect='dyn', mutates=['config']),
     dict(module=_F, func='create_prior', lean='create_prior', dialect='dyn'),
+    # `new_value = value` aliases the entry config[key]; that entry is never read again (it is deleted by `del config[k]`
+    # right after the loop, and `config` is the private copy `ConfigObj.dict()` returns): the alias is dead
+    dict(module=_F, func='create_chemistry', lean='create_chemistry', dialect='dyn', mutates=['config'],
+         unshared=['new_value']),
+    dict(module=_F, func='create_temperature_profile', lean='create_temperature_profile', dialect='dyn',
+         mutates=['config']),
+    dict(module=_F, func='create_pressure_profile', lean='create_pressure_profile', dialect='dyn', mutates=['config']),
+] + [dict(module=_P, cls='ParameterParser', func=f, lean=f, dialect='dyn')
+     for f in ('generate_chemistry_profile', 'generate_pressure_profile', 'generate_temperature_profile',
+               'generate_planet', 'generate_star', 'generate_optimizer')] + [
+    # `observation_config` / `inst_config` alias an entry of `config`, the private copy `self._raw_config.dict()` returns,
+    # which is not read again before the function returns: the alias is dead
+    dict(module=_P, cls='ParameterParser', func='generate_observation', lean='generate_observation', dialect='dyn',
+         unshared=['observation_config']),
+    dict(module=_P, cls='ParameterParser', func='create_snr', lean='create_snr', dialect='dyn'),
+    dict(module=_P, cls='ParameterParser', func='generate_instrument', lean='generate_instrument', dialect='dyn',
+         unshared=['inst_config'], calls={'self.create_snr': 'create_snr'}),
+    dict(module=_P, cls='ParameterParser', func='generate_model', lean='generate_model', dialect='dyn',
+         calls={'self.generate_' + x: 'generate_' + x
+                for x in ('chemistry_profile', 'pressure_profile', 'temperature_profile', 'planet', 'star')}),
 ]
 
 GEN = None
